@@ -6,7 +6,7 @@
 From Coq Require Import ZArith List Bool Lia.
 Require Import LdkV.Crypto.Bytes LdkV.Crypto.Hmac LdkV.Crypto.ChaCha20.
 Require Import LdkV.Model.Sphinx LdkV.Model.OnionFail LdkV.Model.SphinxInst.
-Require Import LdkV.Proofs.C14 LdkV.Proofs.C14Fail LdkV.Proofs.C14Inst.
+Require Import LdkV.Proofs.C14 LdkV.Proofs.C14Fail LdkV.Proofs.C14Hold LdkV.Proofs.C14Inst.
 Import ListNotations.
 Open Scope nat_scope.
 
@@ -91,6 +91,39 @@ Theorem C14_attribution_sound :
      (exists c1 c0 : Z, read_err_packet x = Some (c1 :: c0 :: m) /\ c = of_be16 [c1; c0])).
 Proof. exact attribution_sound. Qed.
 
+(** Hold times, fulfilled payment: every hop (last one first) adds its hold time to the attribution
+    data; the sender reads the hold times of the first [MAX_HOPS] hops in path order.  Unconditional
+    (any stream cipher with [length (ks k n) = n], any MAC with 32-byte tags). *)
+Theorem C14_hold_times_fulfill :
+  forall (ks : bytes -> nat -> bytes) (hmac : bytes -> bytes -> bytes),
+  (forall k n, length (ks k n) = n) ->
+  (forall k m, length (hmac k m) = 32) ->
+  forall hops : list (fkeys * Z),
+  hops <> [] ->
+  Forall (fun kh => (0 <= snd kh < 2 ^ 32)%Z) hops ->
+  exists E : attribution,
+    fulfill_at_sender ks hmac hops = Some E /\
+    decode_fulfill ks hmac (map fst hops) E = firstn MAX_HOPS (map snd hops).
+Proof. exact hold_times_fulfill. Qed.
+
+(** Hold times, failed payment: the sender reads the hold times of the hops up to the failing one
+    (the first [MAX_HOPS] of them), under the side condition of attribution itself. *)
+Theorem C14_hold_times_failure :
+  forall (ks : bytes -> nat -> bytes) (hmac : bytes -> bytes -> bytes),
+  (forall k n, length (ks k n) = n) ->
+  (forall k m, length (hmac k m) = 32) ->
+  forall (before : list (fkeys * Z)) (ki : fkeys) (after : list fkeys) (code : Z) (d : bytes) (hi : Z),
+  (0 <= code < 65536)%Z ->
+  (Z.of_nat (length d) <= 64000)%Z ->
+  (0 <= hi < 2 ^ 32)%Z ->
+  Forall (fun kh => (0 <= snd kh < 2 ^ 32)%Z) before ->
+  no_spurious_match ks hmac (map fst before)
+    (crypt_data ks ki (failure_plain hmac ki code d DEFAULT_MIN_FAILURE_PACKET_LEN)) ->
+  snd (process_onion_failure ks hmac (map fst before ++ ki :: after)
+         (failure_at_sender ks hmac before ki code d hi))
+  = firstn MAX_HOPS (map snd before ++ [hi]).
+Proof. exact hold_times_failure. Qed.
+
 (** The same for the executable instance that is compared byte for byte with rust-lightning
     (ChaCha20 with the zero nonce, HMAC-SHA256, BigSize-framed payloads): no hypothesis on the
     primitives is left. *)
@@ -123,6 +156,15 @@ Theorem C14_ldk_failure_attributed :
          (failure_at_sender ks_chacha hmac_sha256 before ki code d hold_i))
   = Attributed (length before) code d.
 Proof. exact ldk_failure_attributed. Qed.
+
+Theorem C14_ldk_hold_times_fulfill :
+  forall hops : list (fkeys * Z),
+  hops <> [] ->
+  Forall (fun kh => (0 <= snd kh < 2 ^ 32)%Z) hops ->
+  exists E : attribution,
+    fulfill_at_sender ks_chacha hmac_sha256 hops = Some E /\
+    i_decode_fulfill (map fst hops) E = firstn MAX_HOPS (map snd hops).
+Proof. exact ldk_hold_times_fulfill. Qed.
 
 (** * Non-vacuity: concrete routes satisfy the hypotheses (computed with the real primitives). *)
 
